@@ -416,6 +416,16 @@ def run(ck: Checker):
                 qd = dotted(method_of(c_)[0])
                 if qd and qd.startswith('self.') and 'queue' in qd.lower() and qd not in start_puts:
                     probs.append(f'{h.qualname} L{c_.lineno}: `{norm_text(c_)}` is the parent\'s first put on that multiprocessing queue (start() makes none): it has to start the queue\'s feeder thread, which fails during interpreter shutdown — a child that outlives the main thread leaves the logger thread without its end marker, the parent never exits')
+    ck.rule('C20-8', 'a process pool or any library that asks the package\'s context for "the spawn context" gets the package\'s own context back — and with it the Process class that forwards log records: SpawnContext.get_context returns self for None / "spawn" (the inherited method hands out the standard library\'s spawn context, whose processes forward nothing)')
+    sctx = ck.repo.cls(CONTEXT, 'SpawnContext')
+    gc8 = next((m for m in sctx.methods() if m.name == 'get_context'), None)
+    if gc8 is None:
+        ck.ob('C20-8', sctx.methods()[0] if sctx.methods() else cls.method('start'), sctx.node, False, 'SpawnContext does not override get_context: `ctx.get_context("spawn")` (what concurrent.futures and other libraries do with a context) returns the standard spawn context — child processes created through it do not forward their log records')
+    else:
+        rets8 = [r for r in ast.walk(gc8.node) if isinstance(r, ast.Return) and is_name(r.value, 'self')]
+        tests8 = [t for t in ast.walk(gc8.node) if isinstance(t, (ast.If, ast.IfExp)) and ('spawn' in norm_text(t.test) or 'None' in norm_text(t.test))]
+        ok8 = bool(rets8) and (bool(tests8) or len([r for r in ast.walk(gc8.node) if isinstance(r, ast.Return)]) == 1)
+        ck.ob('C20-8', gc8, rets8[0] if rets8 else gc8.node, ok8, 'get_context() / get_context("spawn") return the package\'s own context' if ok8 else 'get_context does not return self for None / "spawn"')
     ck.rule('C20-7', 'the forwarding handler stays installed until the child has nothing left to say: from the point where run() removes the handler (or closes its end of the log queue) no path leads to the target, to handle_exception — which users override and which logs — or to the delivery of the outcome (pickling it runs user code): records emitted there would be dropped')
     check_forwarding_until_end(ck, 'C20-7', cls)
     ck.rule('C20-6', 'while the child may be alive the log queue is written by the child only: a put by the parent registers an exit finaliser that closes the queue when the parent process exits, before it joins children that are still logging (nested processes hang) (WHO)')
